@@ -266,4 +266,255 @@ theorem mergeContainers_generated_eq_model (o : ListStrategy) (f : List Node →
   simp only [FuncsDom.mergeContainers, GoDom.sizeC]
   exact mergeContainers_rec_eq o f _ hf _ c1 c2 h1 h2 (by omega) (by omega)
 
+/-! ## mergeListsMeld -/
+
+theorem listFnOk_mono {o : ListStrategy} {f : List Node → List Node → Go.Res (List Node)} {M M' : Nat}
+    (hf : ListFnOk o f M) (h : M' ≤ M) : ListFnOk o f M' :=
+  fun a b ha hb hs => hf a b ha hb (by omega)
+
+theorem size_getElem_le (xs : List Node) (i : Nat) (h : i < xs.length) : xs[i].size ≤ Node.sizeList xs := by
+  induction xs generalizing i with
+  | nil => simp at h
+  | cons x xs ih =>
+    cases i with
+    | zero => simp [Node.sizeList]
+    | succ i =>
+      have := ih i (by simpa using h)
+      simp only [List.getElem_cons_succ, Node.sizeList]
+      omega
+
+theorem set_uint (l : List Node) (i : Nat) (v : Node) (h : i < l.length) :
+    GoDom.set l (GoDom.uint (i : Int)) v = l.set i v := by
+  simp only [GoDom.set, GoDom.uint, Int.toNat_natCast, listSet, padTo]
+  have : i + 1 - l.length = 0 := by omega
+  simp [this]
+
+theorem meld_loop1_eq (mx : Nat) : ∀ (fuel : Nat) (l : List Node) (i : Nat), i ≤ mx → mx - i < fuel →
+    FuncsDom.mergeListsMeld_loop1 (mx : Int) fuel l (i : Int) =
+      .ok (l ++ List.replicate (mx - i) Node.null, (mx : Int)) := by
+  intro fuel
+  induction fuel with
+  | zero => intro l i _ h; omega
+  | succ fuel ih =>
+    intro l i hi hf
+    simp only [FuncsDom.mergeListsMeld_loop1, GoDom.append, listAppend]
+    by_cases h : i < mx
+    · have h' : ((i : Int) < (mx : Int)) := by omega
+      simp only [h', decide_true, if_true]
+      rw [natCast_succ', ih _ (i + 1) (by omega) (by omega), List.append_assoc]
+      have : mx - i = (mx - (i + 1)) + 1 := by omega
+      rw [this, List.replicate_succ]
+      rfl
+    · have h' : ¬ ((i : Int) < (mx : Int)) := by omega
+      have e : i = mx := by omega
+      subst e
+      simp [h']
+
+/-- what mergeListsMeld stores at a common index: the model's `mergeNode` -/
+theorem meld_loop2_eq (o : ListStrategy) (f : List Node → List Node → Go.Res (List Node)) (l1 l2 : List Node)
+    (hf : ListFnOk o f (Node.sizeList l2)) (h1 : (Node.list l1).WF) (h2 : (Node.list l2).WF)
+    (mn : Nat) (hm1 : mn ≤ l1.length) (hm2 : mn ≤ l2.length) :
+    ∀ (fuel : Nat) (l : List Node) (i : Nat), i ≤ mn → mn ≤ l.length → mn - i < fuel →
+      ∃ r, FuncsDom.mergeListsMeld_loop2 f l1 l2 (mn : Int) fuel l (i : Int) = .ok (r, (mn : Int)) ∧
+        r.length = l.length ∧
+        ∀ j, r[j]? = if i ≤ j ∧ j < mn then (some (mergeNode o (l1.getD j Node.null) (l2.getD j Node.null))) else l[j]? := by
+  intro fuel
+  induction fuel with
+  | zero => intro l i _ _ h; omega
+  | succ fuel ih =>
+    intro l i hi hl hfu
+    simp only [FuncsDom.mergeListsMeld_loop2, GoDom.items]
+    by_cases h : i < mn
+    · have h' : ((i : Int) < (mn : Int)) := by omega
+      have hi1 : i < l1.length := by omega
+      have hi2 : i < l2.length := by omega
+      have w1 : l1[i].WF := Node.WF.of_list_mem h1 (List.getElem_mem hi1)
+      have w2 : l2[i].WF := Node.WF.of_list_mem h2 (List.getElem_mem hi2)
+      have hsz := size_getElem_le l2 i hi2
+      simp only [h', decide_true, if_true, Go.index_nat l1 i hi1, Go.index_nat l2 i hi2, Go.Res.ok_bind]
+      -- the value stored at index i
+      have key : ∀ (v : Node), v = mergeNode o l1[i] l2[i] →
+          ∃ r, FuncsDom.mergeListsMeld_loop2 f l1 l2 (mn : Int) fuel (GoDom.set l (GoDom.uint (i : Int)) v) ((i : Int) + 1)
+              = .ok (r, (mn : Int)) ∧ r.length = l.length ∧
+            ∀ j, r[j]? = if i ≤ j ∧ j < mn then (some (mergeNode o (l1.getD j Node.null) (l2.getD j Node.null))) else l[j]? := by
+        intro v hv
+        rw [set_uint l i v (by omega), natCast_succ']
+        obtain ⟨r, e, hlen, hget⟩ := ih (l.set i v) (i + 1) (by omega) (by simpa using hl) (by omega)
+        refine ⟨r, e, by simpa using hlen, ?_⟩
+        intro j
+        rw [hget j]
+        by_cases hj : i + 1 ≤ j ∧ j < mn
+        · have : i ≤ j ∧ j < mn := ⟨by omega, hj.2⟩
+          simp [hj, this]
+        · by_cases hij : j = i
+          · subst hij
+            have : j < l.length := by omega
+            simp [hv, h, hi1, hi2, List.getD, this]
+          · have : ¬ (i ≤ j ∧ j < mn) := by omega
+            simp only [hj, this, if_false]
+            rw [List.getElem?_set_ne (by omega)]
+      generalize hx : l1[i] = x at w1 key
+      generalize hy : l2[i] = y at w2 key hsz
+      cases x with
+      | cont a =>
+        cases y with
+        | cont b =>
+          have hb : Node.sizeKvs b ≤ Node.sizeList l2 := by simp only [Node.size] at hsz; omega
+          simp only [GoDom.isContainer, Node.isCont, Bool.and_self, if_true, GoDom.asContainer, Go.Res.ok_bind,
+            mergeContainers_generated_eq_model o f a b (listFnOk_mono hf hb) w1 w2]
+          exact key _ (by rw [mergeNode_cont_cont])
+        | list yb =>
+          simp only [GoDom.isContainer, GoDom.isList, Node.isCont, Node.isList, Bool.and_false, Bool.false_and,
+            Bool.false_eq_true, if_false, coalesce_generated_eq_model, Go.Res.ok_bind]
+          exact key _ (by simp [mergeNode, coalesce])
+        | leaf s =>
+          simp only [GoDom.isContainer, GoDom.isList, Node.isCont, Node.isList, Bool.and_false, Bool.false_and,
+            Bool.false_eq_true, if_false, coalesce_generated_eq_model, Go.Res.ok_bind]
+          exact key _ (by simp [mergeNode, coalesce])
+      | list xa =>
+        cases y with
+        | cont b =>
+          simp only [GoDom.isContainer, GoDom.isList, Node.isCont, Node.isList, Bool.and_false, Bool.false_and,
+            Bool.false_eq_true, if_false, coalesce_generated_eq_model, Go.Res.ok_bind]
+          exact key _ (by simp [mergeNode, coalesce])
+        | list yb =>
+          have hb : Node.sizeList yb < Node.sizeList l2 := by simp only [Node.size] at hsz; omega
+          simp only [GoDom.isContainer, GoDom.isList, Node.isCont, Node.isList, Bool.and_self, Bool.false_eq_true,
+            if_false, if_true, GoDom.asList, Go.Res.ok_bind, hf xa yb w1 w2 hb]
+          exact key _ (by rw [mergeNode_list_list])
+        | leaf s =>
+          simp only [GoDom.isContainer, GoDom.isList, Node.isCont, Node.isList, Bool.and_false, Bool.false_and,
+            Bool.false_eq_true, if_false, coalesce_generated_eq_model, Go.Res.ok_bind]
+          exact key _ (by simp [mergeNode, coalesce])
+      | leaf t =>
+        cases y with
+        | cont b =>
+          simp only [GoDom.isContainer, GoDom.isList, Node.isCont, Node.isList, Bool.and_false, Bool.false_and,
+            Bool.false_eq_true, if_false, coalesce_generated_eq_model, Go.Res.ok_bind]
+          exact key _ (by simp [mergeNode, coalesce])
+        | list yb =>
+          simp only [GoDom.isContainer, GoDom.isList, Node.isCont, Node.isList, Bool.and_false, Bool.false_and,
+            Bool.false_eq_true, if_false, coalesce_generated_eq_model, Go.Res.ok_bind]
+          exact key _ (by simp [mergeNode, coalesce])
+        | leaf s =>
+          simp only [GoDom.isContainer, GoDom.isList, Node.isCont, Node.isList, Bool.and_false, Bool.false_and,
+            Bool.false_eq_true, if_false, coalesce_generated_eq_model, Go.Res.ok_bind]
+          exact key _ (by simp [mergeNode, coalesce])
+    · have h' : ¬ ((i : Int) < (mn : Int)) := by omega
+      simp only [h', decide_false, Bool.false_eq_true, if_false]
+      have e : i = mn := by omega
+      refine ⟨l, by rw [e]; rfl, rfl, ?_⟩
+      intro j
+      have : ¬ (i ≤ j ∧ j < mn) := by omega
+      simp [this]
+
+theorem meld_loop3_eq (l1 l2 : List Node) (mx : Nat) :
+    ∀ (fuel : Nat) (l : List Node) (i : Nat), i ≤ mx → mx ≤ l.length → mx - i < fuel →
+      ∃ r, FuncsDom.mergeListsMeld_loop3 l1 l2 (mx : Int) fuel l (i : Int) = .ok (r, (mx : Int)) ∧
+        r.length = l.length ∧
+        ∀ j, r[j]? = if i ≤ j ∧ j < mx then some (firstValidListItem j [l1, l2]) else l[j]? := by
+  intro fuel
+  induction fuel with
+  | zero => intro l i _ _ h; omega
+  | succ fuel ih =>
+    intro l i hi hl hfu
+    simp only [FuncsDom.mergeListsMeld_loop3]
+    by_cases h : i < mx
+    · have h' : ((i : Int) < (mx : Int)) := by omega
+      simp only [h', decide_true, if_true, firstValidListItem_generated_eq_model, Go.Res.ok_bind]
+      rw [set_uint l i _ (by omega), natCast_succ']
+      obtain ⟨r, e, hlen, hget⟩ := ih (l.set i (firstValidListItem i [l1, l2])) (i + 1) (by omega)
+        (by simpa using hl) (by omega)
+      refine ⟨r, e, by simpa using hlen, ?_⟩
+      intro j
+      rw [hget j]
+      by_cases hj : i + 1 ≤ j ∧ j < mx
+      · have : i ≤ j ∧ j < mx := ⟨by omega, hj.2⟩
+        simp [hj, this]
+      · by_cases hij : j = i
+        · subst hij
+          have : j < l.length := by omega
+          simp [h, this]
+        · have : ¬ (i ≤ j ∧ j < mx) := by omega
+          simp only [hj, this, if_false]
+          rw [List.getElem?_set_ne (by omega)]
+    · have h' : ¬ ((i : Int) < (mx : Int)) := by omega
+      simp only [h', decide_false, Bool.false_eq_true, if_false]
+      have e : i = mx := by omega
+      refine ⟨l, by rw [e]; rfl, rfl, ?_⟩
+      intro j
+      have : ¬ (i ≤ j ∧ j < mx) := by omega
+      simp [this]
+
+/-- merger.mergeListsMeld, as translated, is the model's `meldList` on well-formed lists, for every list
+    strategy `f` (the field `mg.listMergeFn`) that meets its contract on the lists below `l2` -/
+theorem mergeListsMeld_generated_eq_model (o : ListStrategy) (f : List Node → List Node → Go.Res (List Node))
+    (l1 l2 : List Node) (hf : ListFnOk o f (Node.sizeList l2)) (h1 : (Node.list l1).WF) (h2 : (Node.list l2).WF) :
+    FuncsDom.mergeListsMeld f l1 l2 = .ok (meldList o l1 l2) := by
+  have emx : GoDom.intMax (GoDom.size l1) (GoDom.size l2) = ((max l1.length l2.length : Nat) : Int) := by
+    simp only [GoDom.intMax, GoDom.size]; omega
+  have emn : GoDom.intMin (GoDom.size l1) (GoDom.size l2) = ((min l1.length l2.length : Nat) : Int) := by
+    simp only [GoDom.intMin, GoDom.size]; omega
+  simp only [FuncsDom.mergeListsMeld, emx, emn, GoDom.newList]
+  have e1 := meld_loop1_eq (max l1.length l2.length) (((max l1.length l2.length : Nat) : Int) + 1).toNat [] 0
+    (by omega) (by omega)
+  simp only [Int.natCast_zero, List.nil_append, Nat.sub_zero] at e1
+  rw [e1]
+  obtain ⟨r2, e2, len2, get2⟩ := meld_loop2_eq o f l1 l2 hf h1 h2 (min l1.length l2.length) (by omega) (by omega)
+    (((min l1.length l2.length : Nat) : Int) + 1).toNat (List.replicate (max l1.length l2.length) Node.null) 0
+    (by omega) (by simp; omega) (by omega)
+  simp only [Int.natCast_zero] at e2
+  simp only [Go.Res.ok_bind, e2]
+  obtain ⟨r3, e3, len3, get3⟩ := meld_loop3_eq l1 l2 (max l1.length l2.length)
+    (((max l1.length l2.length : Nat) : Int) + 1).toNat r2 (min l1.length l2.length)
+    (by omega) (by rw [len2]; simp) (by omega)
+  simp only [e3, Go.Res.ok_bind]
+  show Go.Res.ok r3 = _
+  congr 1
+  apply List.ext_getElem?
+  intro j
+  rw [get3 j, get2 j]
+  by_cases hj1 : j < min l1.length l2.length
+  · have a1 : j < l1.length := by omega
+    have a2 : j < l2.length := by omega
+    have : ¬ (min l1.length l2.length ≤ j ∧ j < max l1.length l2.length) := by omega
+    simp only [this, if_false, Nat.zero_le, true_and, hj1, if_true]
+    rw [getElem?_meldList]
+    simp [List.getD, a1, a2, mergeEntry]
+  · by_cases hj2 : j < max l1.length l2.length
+    · have : min l1.length l2.length ≤ j ∧ j < max l1.length l2.length := ⟨by omega, hj2⟩
+      simp only [this, and_self, if_true]
+      rw [getElem?_meldList_tail o l1 l2 j this.1 this.2]
+    · have n1 : ¬ (min l1.length l2.length ≤ j ∧ j < max l1.length l2.length) := by omega
+      have n2 : ¬ (0 ≤ j ∧ j < min l1.length l2.length) := by omega
+      simp only [n1, n2, if_false]
+      have : (meldList o l1 l2).length ≤ j := by rw [length_meldList]; omega
+      rw [List.getElem?_eq_none this]
+      simp; omega
+
+/-! ## tying the knot: the two list strategies the options can select -/
+
+/-- `defaultListMerger`: `m.listMergeFn = m.mergeListsMeld` — the field refers back to the method of the
+    same merger.  `meldKnot n` is that self-reference unrolled `n` times (`.fuel` beyond). -/
+def meldKnot : Nat → List Node → List Node → Go.Res (List Node)
+  | 0 => fun _ _ => .fuel
+  | n + 1 => FuncsDom.mergeListsMeld (meldKnot n)
+
+theorem meldKnot_eq : ∀ (n : Nat) (l1 l2 : List Node), (Node.list l1).WF → (Node.list l2).WF →
+    Node.sizeList l2 < n → meldKnot n l1 l2 = .ok (meldList .meld l1 l2) := by
+  intro n
+  induction n with
+  | zero => intro l1 l2 _ _ h; omega
+  | succ n ih =>
+    intro l1 l2 h1 h2 hs
+    show FuncsDom.mergeListsMeld (meldKnot n) l1 l2 = _
+    exact mergeListsMeld_generated_eq_model .meld (meldKnot n) l1 l2
+      (fun a b ha hb hlt => by rw [ih a b ha hb (by omega)]; rfl) h1 h2
+
+theorem listFnOk_meld (M : Nat) : ListFnOk .meld (meldKnot M) M :=
+  fun a b ha hb hs => by rw [meldKnot_eq M a b ha hb hs]; rfl
+
+theorem listFnOk_append (M : Nat) : ListFnOk .append FuncsDom.mergeListsAppend M :=
+  fun a b _ _ _ => by rw [mergeListsAppend_generated_eq_model]; rfl
+
 end Ytk.FuncsDomMerge
